@@ -13,7 +13,10 @@ delegation / other) and re-proved safe by vm_compute on the regenerated list;
 Oracle: for every pair with an argument recipe: receiver fingerprint (labels,
 tags, dtype, array bytes - also of a copy sharing the arrays) unchanged by the
 plain call, f(x) == f_(copy x) as labelled objects, and f(x) == f(x with every
-tensor's axes randomly permuted).
+tensor's axes randomly permuted). A plain spelling that returns the contracted
+number is compared with the number (or label-free network) the in-place spelling
+leaves. Randomised methods are called with a fixed seed (see GLOBAL_SEEDED /
+AXIS_ORDER_DRAWS / RANDOMISED above one_case).
 """
 
 import ast
@@ -209,6 +212,12 @@ def make_receivers(seed):
               qtn.Tensor(ints(rng, (2, 2, 2)), ("c", "e", "f"), tags=["C", "Y"], left_inds=("e", "f"))]
         return qtn.TensorNetwork(ts)
     R["TN_ISO"] = tn_iso
+    # two tensors per site (an operator lazily gated onto a state / a bra-ket sandwich): what `flatten` is for
+    R["MPS_LAZY"] = lambda: qtn.MPS_rand_state(4, 2, seed=int(rng.integers(1 << 30))).gate_with_op_lazy(
+        qtn.MPO_rand_herm(4, 2, seed=int(rng.integers(1 << 30))))
+    R["GENV_LAZY"] = lambda: R["GENV"]().gate_with_op_lazy(R["GENO"]())
+    R["NORM2D"] = lambda: qtn.PEPS.rand(2, 3, 2, seed=int(rng.integers(1 << 30))).make_norm()
+    R["NORM3D"] = lambda: qtn.PEPS3D.rand(1, 2, 2, 2, seed=int(rng.integers(1 << 30))).make_norm()
     return R, rng
 
 
@@ -351,8 +360,9 @@ def recipes():
     add("contract_compressed", ["TN"], lambda r, x: (([(2, 3), (0, 1), (0, 1)],), {"max_bond": 4, "output_inds": ("f", "d"), "preserve_tensor": True}))
     add("contract_compressed", ["TN2D"], lambda r, x: (("greedy",), {"max_bond": 16}))
     add("fit", ["TREE"], lambda r, x: ((x.copy().randomize_(seed=sd(r)),), {"method": "tree", "steps": 3}))
-    add("fit", ["TREE"], lambda r, x: ((x.copy().randomize_(seed=sd(r)),), {"method": "als", "steps": 3}))
-    add("fit", ["MPS"], lambda r, x: ((qtn.MPS_rand_state(4, 2, seed=sd(r), dtype="complex128"),), {"method": "als", "steps": 2}))
+    # (ALS solves a dense local normal equation: only on receivers with generic data, small-integer trees can make it singular)
+    add("fit", ["MPS"], lambda r, x: ((qtn.MPS_rand_state(4, 2, seed=sd(r), dtype="complex128"),), {"method": "tree", "steps": 2}))
+    add("fit", ["MPS"], lambda r, x: ((qtn.MPS_rand_state(4, 2, seed=sd(r), dtype="complex128"),), {"method": "als", "steps": 2, "solver_dense": "lstsq"}))
     gate_t = lambda r: qtn.Tensor(ints(r, (2, 2, 2, 2)), ("o1", "o2", "i1", "i2"), tags=["G"])
     add("gate_inds_with_tn", ["TN"], lambda r, x: ((["d", "f"], gate_t(r), ["i1", "i2"], ["o1", "o2"]), {}))
     # an index that is not on the network: the gate's inner and outer label are both kept (documented case)
@@ -369,7 +379,8 @@ def recipes():
     add("gauge_all_random", ["TN"], lambda r, x: ((), {"seed": sd(r), "unitary": False, "max_iterations": 2}))
     add("gauge_local", ["TN", "TREE"], lambda r, x: ((["A"],), {}))
     add("gauge_local", ["TN"], lambda r, x: ((["A"],), {"method": "simple", "max_distance": 2}))
-    add("gauge_local", ["TN"], lambda r, x: ((["A"],), {"method": "bp"}))
+    # (belief propagation needs non-degenerate messages: generic data, not the small-integer network)
+    add("gauge_local", ["PEPS"], lambda r, x: (([x.site_tag(0, 0)],), {"method": "bp", "max_distance": 2}))
     add("gauge_local", ["TN"], lambda r, x: ((["B", "Y"],), {"which": "any", "method": "random", "seed": sd(r)}))
     add("insert_compressor_between_regions", ["TN"], lambda r, x: ((["A", "B"], ["C", "D"]), {"max_bond": 2, "new_tags": "P"}))
     add("insert_compressor_between_regions", ["TN"], lambda r, x: ((["A", "B"], ["C", "D"]), {"max_bond": 2, "mode": "nystrom"}))
@@ -398,7 +409,7 @@ def recipes():
     add("apply", ["GENO"], lambda r, x: ((genv(r),), {"contract": False}))
     add("apply", ["MPO"], lambda r, x: ((qtn.MPS_rand_state(4, 2, seed=sd(r)),), {}))
     add("gate_upper", ["GENO"], lambda r, x: ((X, 1), {}))
-    add("gate_upper", ["GENO"], lambda r, x: ((CN, (0, 3)), {"contract": "split"}))
+    add("gate_upper", ["GENO"], lambda r, x: ((CN, (2, 3)), {"contract": "split"}))
     add("gate_lower", ["GENO"], lambda r, x: ((CN, (0, 1)), {}))
     add("gate_lower", ["GENO"], lambda r, x: ((X, 2), {"contract": True, "transpose": True}))
     add("gate_sandwich", ["GENO"], lambda r, x: ((CN, (0, 1)), {}))
@@ -432,6 +443,15 @@ def recipes():
     add("contract_boundary_from", ["TN3D322"], lambda r, x: (((0, 1), (0, 1), (0, 1), "xmin"), {"max_bond": 4}))
     add("contract_ctmrg", ["TN3D", "TN3D322"], lambda r, x: ((), {"max_bond": 4}))
     add("contract_ctmrg", ["TN3D322"], lambda r, x: ((), {"max_bond": 4, "final_contract": False}))
+    # ---- pairs that had a recipe under their name but no receiver reaching that owner's attribute
+    add("flatten", ["MPS_LAZY", "GENV_LAZY", "NORM2D", "NORM3D"], lambda r, x: ((), {}))
+    add("flatten", ["MPS_LAZY"], lambda r, x: ((), {"fuse_multibonds": False}))
+    add("contract_hotrg", ["TN3D"], lambda r, x: ((), {"max_bond": 4}))
+    add("gate", ["PEPS3D"], lambda r, x: ((X, (0, 1, 1)), {}))
+    add("gate", ["PEPS3D"], lambda r, x: ((CN, ((0, 0, 0), (0, 0, 1))), {"contract": "split"}))
+    add("gate", ["GENO"], lambda r, x: ((CN, (0, 1)), {}))
+    add("gate", ["GENO"], lambda r, x: ((ints(r, (2, 2), True), 3), {"which": "upper", "contract": True}))
+    add("gate_simple", ["GENO"], lambda r, x: ((CN, (0, 1)), {"gauges": {}}))
     return S
 
 
@@ -448,6 +468,19 @@ def fingerprint(x):
     return tuple((tuple(t.inds), tuple(sorted(map(str, t.tags))), str(t.dtype), tuple(t.shape),
                   np.ascontiguousarray(np.asarray(t.data)).tobytes(),
                   None if t.left_inds is None else tuple(t.left_inds)) for t in ts) + (extra,)
+
+
+def np_dense_pairwise(tensors, outs, exponent=0.0):
+    """dense array of a network over `outs`. Up to 6 tensors: the shared single-einsum reference (tm.np_dense). Larger
+    networks (lazily gated operators, boundary-contracted lattices): the same numpy einsum evaluated pairwise
+    (optimize="greedy"), because the one-shot einsum loops over the product of ALL label ranges at once."""
+    if len(tensors) <= 6:
+        return tm.np_dense(tensors, outs, exponent)
+    namer = tm.Namer()
+    args = []
+    for inds, arr in tensors:
+        args += [np.asarray(arr), [namer(i) for i in inds]]
+    return np.einsum(*args, [namer(o) for o in outs], optimize="greedy") * (10.0 ** exponent)
 
 
 def canon(r):
@@ -468,7 +501,7 @@ def canon(r):
         if size > 1 << 14:
             dense = None
         else:
-            dense = tm.np_dense([(t.inds, np.asarray(t.data)) for t in r.tensors], outer, float(np.real(r.exponent))).astype(complex)
+            dense = np_dense_pairwise([(t.inds, np.asarray(t.data)) for t in r.tensors], outer, float(np.real(r.exponent))).astype(complex)
         return (type(r).__name__, outer, dense, tuple(sorted(map(str, r.tags))))
     if isinstance(r, (tuple, list)):
         return tuple(canon(v) for v in r)
@@ -530,6 +563,7 @@ def behaviour(ctx):
     pairs = discover_pairs()
     S = recipes()
     exercised, nospec = set(), []
+    kind_type = {}
     nseeds = ctx.n(2, 8)
     for (owner, name), info in sorted(pairs.items()):
         if name not in S:
@@ -539,19 +573,24 @@ def behaviour(ctx):
             R, rng = make_receivers(ctx.seed * 100 + seed)
             for kinds, fn in S[name]:
                 for kind in kinds:
-                    x = R[kind]()
+                    # the class of each receiver kind is learnt once, so that receivers are only built for the pair
+                    # whose in-place attribute they actually reach
+                    if kind not in kind_type:
+                        kind_type[kind] = type(R[kind]())
+                    tx = kind_type[kind]
                     cls_owner = info["owner"]
-                    if not isinstance(x, cls_owner):
+                    if not issubclass(tx, cls_owner):
                         continue
                     # resolve the attribute actually reached on this receiver class
-                    if getattr(type(x), name + "_", None) is None:
+                    if getattr(tx, name + "_", None) is None:
                         continue
-                    for k in type(x).__mro__:
+                    for k in tx.__mro__:
                         if (name + "_") in k.__dict__:
                             reached = k.__name__
                             break
                     if reached != owner:
                         continue
+                    x = R[kind]()
                     try:
                         args, kw = fn(rng, x)
                     except Exception:
@@ -561,6 +600,9 @@ def behaviour(ctx):
     ctx.extra["pairs_discovered"] = len(pairs)
     ctx.extra["pairs_exercised"] = len(exercised)
     ctx.extra["pairs_without_recipe"] = sorted(nospec)
+    # a recipe exists under this method name, but no receiver kind reaches this owner's in-place attribute (or every
+    # call was rejected): not exercised either
+    ctx.extra["pairs_with_recipe_not_reached"] = sorted(f"{o}.{n}" for (o, n) in pairs if n in S and f"{o}.{n}" not in exercised)
 
 
 def tn_like(v, out=None):
@@ -832,6 +874,69 @@ def binary_ops(ctx):
                 ctx.violation(f"value:binop:{nm}", f"Tensor {nm} does not broadcast by label", desc)
 
 
+def binop_write_correspondence(ctx):
+    """object writes of the real broadcasting operators (new_ind / in-place transpose, by target: caller's left operand,
+    caller's right operand, private copy of either) against coq/C03/Model.v `binop_writes nl nr`."""
+    import operator
+
+    import quimb.tensor as qtn
+
+    rng = np.random.default_rng(ctx.seed + 11)
+    sizes = {"a": 2, "b": 3, "c": 2, "d": 2, "e": 2}
+    labels = sorted(sizes)
+    OPS = [("add", operator.add), ("sub", operator.sub), ("mul", operator.mul), ("div", operator.truediv), ("pow", operator.pow)]
+    real_new_ind, real_transpose = qtn.Tensor.new_ind, qtn.Tensor.transpose
+    cases, info, cid = [], {}, 0
+    for it in range(ctx.n(60, 600)):
+        while True:
+            sa = [l for l in labels if rng.random() < 0.55]
+            sb = [l for l in labels if rng.random() < 0.55]
+            if sa and sb:
+                break
+        sa = [sa[p] for p in rng.permutation(len(sa))]
+        sb = [sb[p] for p in rng.permutation(len(sb))]
+        nl, nr = len([l for l in sb if l not in sa]), len([l for l in sa if l not in sb])
+        nm, op = OPS[int(rng.integers(len(OPS)))]
+        a = qtn.Tensor(ints(rng, tuple(sizes[l] for l in sa)) + 5, sa, tags=["A"])
+        b = qtn.Tensor(rng.integers(1, 4, size=tuple(sizes[l] for l in sb)).astype(float), sb, tags=["B"])
+        log = []
+
+        def cls(t):
+            if t is a:
+                return "TSelf"
+            if t is b:
+                return "TOther"
+            return "TFreshL" if "A" in t.tags else "TFreshR"
+
+        def new_ind(self, *args, **kw):
+            log.append(cls(self))
+            return real_new_ind(self, *args, **kw)
+
+        def transpose(self, *args, inplace=False, **kw):
+            if inplace:
+                log.append(cls(self))
+            return real_transpose(self, *args, inplace=inplace, **kw)
+
+        qtn.Tensor.new_ind, qtn.Tensor.transpose = new_ind, transpose
+        try:
+            op(a, b)
+        except Exception as e:
+            log.append("TOther")  # cannot happen on a sound tree; makes the case fail visibly
+        finally:
+            qtn.Tensor.new_ind, qtn.Tensor.transpose = real_new_ind, real_transpose
+        ctx.count(("binop_writes", nm, nl, nr), nl + nr > 0)
+        cid += 1
+        info[cid] = {"op": nm, "lhs_inds": sa, "rhs_inds": sb, "labels_added_left": nl, "labels_added_right": nr, "observed_writes": list(log)}
+        cases.append((cid, f"tgts_eqb (binop_writes {nl}%nat {nr}%nat) [{'; '.join(log)}]"))
+    header = tm.HEADER + "From QV Require Import C03.Model.\n"
+    failed, errors = ctx.coq_cases("binop_writes", header, cases, shard=300)
+    for path, err in errors:
+        ctx.broken_obligation("correspondence:binop_writes:" + path.split("/")[-1], err)
+    for c in failed[:4]:
+        ctx.violation("binop:write_targets", "the object writes of a Tensor binary operator differ from the modelled copy discipline "
+                      "(model: every write goes to a private copy)", info[c])
+
+
 def transposition_correspondence(ctx):
     import quimb.tensor as qtn
 
@@ -974,6 +1079,7 @@ def run(ctx):
     ctx.check_props(["Base/Sums.vo", "Base/TN.vo", "Base/TNExec.vo", "C03/Model.vo", "C03/Proofs.vo", "C03/Props.v", "Gen/C03_pairs.v"])
     ctx.stage(stale_aliases)
     ctx.stage(transposition_correspondence)
+    ctx.stage(binop_write_correspondence)
     ctx.stage(binary_ops)
     ctx.stage(behaviour)
 
